@@ -162,6 +162,19 @@ class _DS:
         assert 0 <= i < self.n, (self.tag, i, self.n)
         return (self.tag, i)
 
+    def worker_init_fn(self, rank, **kwargs):
+        pass
+
+
+class _TagCollator:
+    """collator of dataset `tag`: returns its own tag and the samples it was given"""
+
+    def __init__(self, tag):
+        self.tag = tag
+
+    def __call__(self, data):
+        return [self.tag, [list(x) for x in data]]
+
 
 class _RecMain:
     def __init__(self, case, log):
@@ -198,7 +211,12 @@ def build(case, log, start="case"):
     cfgs = [InterleavedSamplerConfig(sampler=_Side(i + 1, sc), every_n_epochs=sc["ene"], every_n_updates=sc["enu"],
                                      every_n_samples=sc["ens"], batch_size=sc["bs"])
             for i, sc in enumerate(case["sides"])]
+    if case.get("loader") is not None:
+        for i, cf in enumerate(cfgs):
+            cf.collator = _TagCollator(i + 1)
     kw = {case["budget"][0]: case["budget"][1]}
+    if case.get("loader") is not None:
+        kw["main_collator"] = _TagCollator(0)
     st = case["start"] if start == "case" else start
     if st is not None:
         kw["start_" + st[0]] = st[1]
@@ -249,6 +267,18 @@ def run_stream(case, start="case"):
             out["batches"] = bs
         except AssertionError:
             out["batches"] = "AssertionError"
+        if case.get("loader") is not None:
+            # the real DataLoader (num_workers = case["loader"]) with one tagging collator per dataset
+            s3 = build(case, [], start)
+            try:
+                lb = []
+                for bt in s3.get_data_loader(num_workers=case["loader"]):
+                    lb.append([int(bt[0]), [[int(a), int(b)] for a, b in bt[1]]])
+                    if len(lb) > MAX_EVENTS:
+                        break
+                out["loader_batches"] = lb
+            except Exception as e:  # noqa
+                out["loader_batches"] = type(e).__name__ + ": " + str(e)[:300]
     return out
 
 
